@@ -139,6 +139,7 @@ func oneTree(o *opts, r *rng, s *summary, i int, sc treeScenario, distinct map[s
 			long := strings.Repeat("L", 210)
 			art.set(long+"_first", nFile(genContent(r, &pool)))
 			art.set(long+"_second", nFile(genContent(r, &pool)))
+			art.set(strings.Repeat("N", 250+r.intn(6)), nFile(genContent(r, &pool))) // up to NAME_MAX
 			art.sortEnts()
 			s.count("name:long-shared-prefix")
 		}
